@@ -240,6 +240,14 @@ def empty(shape, dtype=None, *a, **k):
     return _np.empty(shape, dtype, *a, **k)
 
 
+def issubdtype(a, b):
+    if a is SymInt:
+        return b in (_np.integer, int, _np.signedinteger, _np.number)
+    if a is SymReal:
+        return b in (_np.floating, float, _np.number)
+    return _np.issubdtype(a, b)
+
+
 class _ArrayKey:
     """stand-in for the *string* numpy would print: equal keys <=> equal rounded contents
     (idealised injective formatting, see DESIGN.md C12)"""
